@@ -50,6 +50,15 @@ def LedInv(L, bal):
                ForAll([r_, d_], Implies(tot(L, r_, d_) > 0, cap(r_, d_) > 0), patterns=[tot(L, r_, d_)]))
 
 
+def LedInvParts(L, bal):
+    return {'totals-non-negative': ForAll([r_, d_], tot(L, r_, d_) >= 0, patterns=[tot(L, r_, d_)]),
+            'task-part-within-total': ForAll([r_, d_, k_], And(totT(L, r_, d_, k_) >= 0, totT(L, r_, d_, k_) <= tot(L, r_, d_)), patterns=[totT(L, r_, d_, k_)]),
+            'day-total-within-capacity (balancing on)': Implies(bal, ForAll([r_, d_], tot(L, r_, d_) <= cap(r_, d_), patterns=[tot(L, r_, d_)])),
+            'task-total-within-capacity (balancing off)': Implies(Not(bal), ForAll([r_, d_, k_], totT(L, r_, d_, k_) <= cap(r_, d_), patterns=[totT(L, r_, d_, k_)])),
+            'rows-only-on-days-with-capacity': ForAll([r_, d_], Implies(tot(L, r_, d_) > 0, cap(r_, d_) > 0), patterns=[tot(L, r_, d_)]),
+            'rows-are-day-normalised': wf(L)}
+
+
 def booked(bal, L, res, task, day):
     """what the scheduler compares with capacity"""
     return If(bal, tot(L, res, day), totT(L, res, day, task))
@@ -97,11 +106,17 @@ _kk = Int('_kk')
 
 
 def c_nearest_avail(eng, st, recv, args, kws, node):
-    """IResource.get_nearest_availability_date(start, direction) - its own unit proves this contract (contracts/calendar.py)"""
-    start = eng.as_sort(st, args[0], TIME, 'safe/TypeError-None-date'); direction = args[1].e
-    k = fresh('k', INT); ok = st.fork(); exc = st.fork()
-    if is_int_value(direction) and direction.as_long() == 1: probe = lambda j: start + 86400 * ToReal(j)
-    elif is_int_value(direction) and direction.as_long() == -1: probe = lambda j: start - 86400 * ToReal(j) - 86400
-    else: probe = lambda j: If(direction < 0, start + 86400 * ToReal(j * direction) - 86400, start + 86400 * ToReal(j * direction))
-    ok.assume(And(k >= 0, cap(recv.e, dayidx(probe(k))) > 0, ForAll([_kk], Implies(And(0 <= _kk, _kk < k), cap(recv.e, dayidx(probe(_kk))) <= 0))))
-    return [(ok, V(simplify(start + 86400 * ToReal(k * direction)), TIME)), (exc, Raise('RuntimeError'))]
+    """IResource.get_nearest_availability_date(start, direction) - its own unit proves the date-level contract (contracts/calendar.py);
+    here it is stated over day indexes (capacity is day-granular; dayidx(start + 86400*j) = dayidx(start) + j is a theorem of floor)"""
+    start = eng.as_sort(st, args[0], TIME, 'safe/TypeError-None-date'); direction = simplify(args[1].e)
+    if not is_int_value(direction) or direction.as_long() not in (1, -1): raise Unsupported('availability search with a symbolic direction')
+    fwd = direction.as_long() == 1
+    k = fresh('k', INT); ok = st.fork(); exc = st.fork(); d0 = dayidx(start); dd = Int('_dd')
+    res = fresh('nearest', TIME)
+    if fwd:
+        ok.assume(And(k >= 0, res == start + 86400 * ToReal(k), dayidx(res) == d0 + k, cap(recv.e, d0 + k) > 0,
+                      ForAll([dd], Implies(And(d0 <= dd, dd < d0 + k), cap(recv.e, dd) <= 0), patterns=[cap(recv.e, dd)])))
+    else:
+        ok.assume(And(k >= 0, res == start - 86400 * ToReal(k), dayidx(res) == d0 - k, dayidx(res - 86400) == d0 - k - 1, cap(recv.e, d0 - k - 1) > 0,
+                      ForAll([dd], Implies(And(d0 - 1 - k < dd, dd <= d0 - 1), cap(recv.e, dd) <= 0), patterns=[cap(recv.e, dd)])))
+    return [(ok, V(res, TIME)), (exc, Raise('RuntimeError'))]
